@@ -26,7 +26,7 @@
    of the current chain), index_store_agree, reopen_reproduces for clean shutdowns (equality of
    the rebuilt index) and minimality of the evicted account for a freshly built heap are
    checked by correspondence and the Go oracle only. *)
-From GV Require Import Lib.Tactics Pool.Blob Pool.BlobProofs Pool.BlobAddProofs Pool.BlobResetProofs Pool.BlobInitProofs Pool.BlobLimboProofs Pool.BlobLimboReset Pool.BlobLimboFrame Pool.BlobLimboEntry Pool.BlobRollingProofs Pool.BlobRollingTip Pool.BlobRollingReset Pool.BlobReopenProofs Pool.BlobRollingWitness Pool.BlobWitness Pool.BlobWitness2.
+From GV Require Import Lib.Tactics Pool.Blob Pool.BlobProofs Pool.BlobAddProofs Pool.BlobResetProofs Pool.BlobInitProofs Pool.BlobLimboProofs Pool.BlobLimboReset Pool.BlobLimboFrame Pool.BlobLimboEntry Pool.BlobRollingProofs Pool.BlobRollingTip Pool.BlobRollingReset Pool.BlobReopenProofs Pool.BlobReopenPerm Pool.BlobRollingWitness Pool.BlobWitness Pool.BlobWitness2.
 Local Open Scope N_scope.
 
 (* blob_contiguous, list level: whatever recheck's threshold loop keeps has consecutive nonces
@@ -304,6 +304,21 @@ Theorem C42_reopen_account_reproduces : forall prioE prioB a p x s l0 s0,
     aget (p_spent y) a = aget (p_spent p) a.
 Proof. exact reopen_account. Qed.
 Print Assumptions C42_reopen_account_reproduces.
+
+(* ... and the order in which the store hands the entries back does not matter: the tracked
+   entries may be ANY permutation of the running account's transactions (whose nonces are strictly
+   increasing) *)
+Theorem C42_reopen_account_reproduces_any_store_order : forall prioE prioB a p x s l0,
+  aget (p_index p) a = Some s -> acct_ok p a -> rk p a -> (length s <= maxTxsPerAccount)%nat ->
+  Sorted.StronglySorted tx_lt (map m_tx s) ->
+  p_nonce x = p_nonce p -> p_bal x = p_bal p ->
+  aget (p_index x) a = Some l0 -> Permutation.Permutation (map m_tx l0) (map m_tx s) ->
+  aget (p_spent x) a = Some (sum_cost l0) ->
+  exists y s2, recheck prioE prioB false a None x = Ok y /\
+    aget (p_index y) a = Some s2 /\ map m_tx s2 = map m_tx s /\ map evs s2 = map evs s /\
+    aget (p_spent y) a = aget (p_spent p) a.
+Proof. exact reopen_account_perm. Qed.
+Print Assumptions C42_reopen_account_reproduces_any_store_order.
 
 (* crash cuts: every entry a clean Close leaves on disk is on disk, unchanged, after an abrupt
    stop (Delete never touches the disk: an abrupt stop can only resurrect entries) *)
